@@ -49,6 +49,10 @@ func UnmarshalPriShare(data []byte, suite Suite) (*share.PriShare, error) {
 	if err != nil {
 		return nil, err
 	}
+	// an absent scalar field decodes to a nil interface that panics on first use
+	if compatiblePriShare.V == nil {
+		return nil, errors.New("missing share value")
+	}
 	priShare := &share.PriShare{
 		I: uint32(compatiblePriShare.I),
 		V: compatiblePriShare.V,
